@@ -1,6 +1,9 @@
 import OrsoVerif.Lemmas.Cast
 import OrsoVerif.Lemmas.CastDecimal
 import OrsoVerif.Lemmas.CastJson
+import OrsoVerif.Lemmas.CastFns
+import OrsoVerif.Lemmas.CastText
+import OrsoVerif.Generated.CastFns
 import OrsoVerif.Props.C08
 /-!
 # C07 — Casting to a column type is exact on canonical renderings
@@ -90,6 +93,42 @@ theorem double_roundtrip (fot : List Char → Option UInt64) (rep : UInt64 → L
   refine ⟨by simp [parseDouble, hparam], rfl, ?_⟩
   intro hascii
   simp only [parseDouble, asciiBytes_all _ hascii, if_true, asciiChars_asciiBytes _ hascii, hparam]
+
+/-- **Padded renderings of integers**: ASCII white space (space, tab, LF, CR, VT, FF — what `int()` skips) before and
+after the decimal rendering of any integer does not change the cast: text and the ASCII bytes that spell it. -/
+theorem int_padded_roundtrip (n : Int) (h : (Nat.toDigits 10 n.natAbs).length ≤ Iso.maxStrDigits) (pre post : List Char)
+    (hpre : ∀ c ∈ pre, Iso.isWs c = true) (hpost : ∀ c ∈ post, Iso.isWs c = true) :
+    parseInteger (.str (pre ++ (renderInt n ++ post))) = .ok (.int n) ∧
+    ((∀ c ∈ pre ++ (renderInt n ++ post), c.toNat < 128) →
+      parseInteger (.bytes (asciiBytes (pre ++ (renderInt n ++ post)))) = .ok (.int n)) := by
+  refine ⟨?_, fun hascii => ?_⟩
+  · simp only [parseInteger, pyInt_padded n h pre post hpre hpost, liftIso, Cast.bind_ok]
+  · simp only [parseInteger, asciiBytes_all _ hascii, if_true, asciiChars_asciiBytes _ hascii,
+      pyInt_padded n h pre post hpre hpost, liftIso, Cast.bind_ok]
+
+/-- **Floats from text at the boundaries, and padded.**  ASSUMED, exactly: `FloatTextParam fot rep` (`float(repr f) = f`;
+white space around a text is skipped; the boundary table `Cast.floatSpecials` — NaN / infinity spellings, ±1e308, overflow
+to infinity, subnormals and underflow to ±0, `-0.0`, underscores — each sampled or compared with the interpreter on
+every run).  PROVED from it: the padded `repr` casts back to the double bit for bit; every boundary text casts to the
+tabulated double, also padded, also as the ASCII bytes that spell it; the table is not vacuous and contains the limits. -/
+theorem double_text_forms (fot : List Char → Option UInt64) (rep : UInt64 → List Char) (P : FloatTextParam fot rep) :
+    (∀ (f : UInt64) (pre post : List Char), (∀ c ∈ pre, Iso.isWs c = true) → (∀ c ∈ post, Iso.isWs c = true) →
+      parseDouble fot (.str (pre ++ (rep f ++ post))) = .ok (.float f)) ∧
+    (∀ p ∈ floatSpecials, ∀ (pre post : List Char), (∀ c ∈ pre, Iso.isWs c = true) → (∀ c ∈ post, Iso.isWs c = true) →
+      parseDouble fot (.str (pre ++ (p.1.toList ++ post))) = .ok (.float p.2) ∧
+      parseDouble fot (.str p.1.toList) = .ok (.float p.2) ∧
+      ((∀ c ∈ p.1.toList, c.toNat < 128) → parseDouble fot (.bytes (asciiBytes p.1.toList)) = .ok (.float p.2))) ∧
+    (("1.7976931348623157e308", 0x7FEFFFFFFFFFFFFF) ∈ floatSpecials ∧ ("1e309", 0x7FF0000000000000) ∈ floatSpecials ∧
+      ("5e-324", 0x1) ∈ floatSpecials ∧ ("-0.0", 0x8000000000000000) ∈ floatSpecials ∧
+      ("nan", 0x7FF8000000000000) ∈ floatSpecials ∧ ("-inf", 0xFFF0000000000000) ∈ floatSpecials) := by
+  refine ⟨?_, ?_, by decide⟩
+  · intro f pre post hpre hpost
+    simp only [parseDouble, P.padding pre (rep f) post hpre hpost, P.reprInverse]
+  · intro p hp pre post hpre hpost
+    refine ⟨?_, ?_, fun hascii => ?_⟩
+    · simp only [parseDouble, P.padding pre p.1.toList post hpre hpost, P.specials p hp]
+    · simp only [parseDouble, P.specials p hp]
+    · simp only [parseDouble, asciiBytes_all _ hascii, if_true, asciiChars_asciiBytes _ hascii, P.specials p hp]
 
 /-- **The generated `if length:` tests and `[:length]` slices** of `parse_varchar` and
 `parse_bytes` (expressions lifted from the source on this run): length 0 is "no limit", a positive
@@ -552,6 +591,173 @@ theorem array_int_beyond_64bit_counterexample (fot : List Char → Option UInt64
     parseArray, parse, parseVia_some null_guard, dispatch_table]
   decide
 
+/-! ## The functions of `orso/types.py`, translated statement by statement on this run, are the model
+
+`Gen.CastFns.*` is what `harness/pystmt_cast.py` makes of the *current* bodies of `parse_boolean`, `parse_integer`,
+`parse_double`, `parse_varchar`, `parse_bytes`, `parse_date`, `parse_timestamp`, `parse_decimal`, `parse_array`,
+`OrsoTypes.parse` and the dict `ORSO_TO_PYTHON_PARSER` (Python primitives: `Model/CastPrim.lean`).  Each theorem below
+says that the generated program *is* the hand-written model function all theorems above are about — for every value,
+every option — so a change of a guard, of the order of two tests, of a conversion, of a slice bound, of a table entry
+breaks the theorem named after the function. -/
+section Generated
+open Cast.Prim
+
+/-- `parse_boolean` as written now is `parseBoolean` (typed booleans and integers, text, bytes; `str()` of other
+classes is not modelled). -/
+theorem generated_parse_boolean_eq_model (fot : Fot) (v : Val) (kw : Kw) (hv : textual v = true) :
+    Gen.CastFns.parse_boolean fot (.val v) kw = (parseBoolean v).map Obj.val := by
+  unfold Gen.CastFns.parse_boolean
+  have hf : ∀ s, fold s = upper s := by intro s; simp [fold, Gen.Cast.boolFold]
+  cases v with
+  | bytes b => prim_simp [parseBoolean, hf, boolWords, asciiChars_map_upperB, lt128_comp_upperB]
+  | str s => prim_simp [parseBoolean, hf, boolWords]
+  | bool b => prim_simp [parseBoolean, hf, boolWords]
+  | int n => prim_simp [parseBoolean, hf, boolWords]
+  | _ => simp [textual] at hv
+
+/-- `parse_integer` as written now is `int(x)` on its argument and nothing else. -/
+theorem generated_parse_integer_eq_model (fot : Fot) (v : Val) (kw : Kw) :
+    Gen.CastFns.parse_integer fot (.val v) kw = (parseInteger v).map Obj.val := by
+  unfold Gen.CastFns.parse_integer
+  cases h : parseInteger v <;> prim_simp [h]
+
+/-- `parse_double` as written now is `float(x)` on its argument and nothing else. -/
+theorem generated_parse_double_eq_model (fot : Fot) (v : Val) (kw : Kw) :
+    Gen.CastFns.parse_double fot (.val v) kw = (parseDouble fot v).map Obj.val := by
+  unfold Gen.CastFns.parse_double
+  cases h : parseDouble fot v <;> prim_simp [h]
+
+/-- `parse_varchar` as written now (decode bytes / `str()`, then `if length:` the `[:length]` slice) is `parseVarchar`
+for every value and every `length` (None, 0, positive). -/
+theorem generated_parse_varchar_eq_model (fot : Fot) (v : Val) (kw : Kw) :
+    Gen.CastFns.parse_varchar fot (.val v) kw = (parseVarchar kw.length v).map Obj.val := by
+  unfold Gen.CastFns.parse_varchar
+  cases hl : kw.length with
+  | none =>
+    cases v with
+    | bytes b => cases hd : Iso.decodeUtf8 b <;> prim_simp [hl, hd, parseVarchar, limitVarchar, limitWith]
+    | _ => prim_simp [hl, parseVarchar, limitVarchar, limitWith]
+  | some k =>
+    by_cases hk : k = 0
+    · subst hk
+      cases v with
+      | bytes b => cases hd : Iso.decodeUtf8 b <;> prim_simp [hl, hd, parseVarchar, limitVarchar, limitWith, Gen.Cast.varcharLimitTest]
+      | _ => prim_simp [hl, parseVarchar, limitVarchar, limitWith, Gen.Cast.varcharLimitTest]
+    · cases v with
+      | bytes b =>
+        cases hd : Iso.decodeUtf8 b <;>
+          prim_simp [hl, hd, hk, parseVarchar, limitVarchar, limitWith, Gen.Cast.varcharLimitTest, Gen.Cast.varcharStop]
+      | _ => prim_simp [hl, hk, parseVarchar, limitVarchar, limitWith, Gen.Cast.varcharLimitTest, Gen.Cast.varcharStop]
+
+/-- `parse_bytes` as written now (bytes as they are, anything else `str(x).encode("utf-8")`, then the slice) is
+`parseBlob`. -/
+theorem generated_parse_bytes_eq_model (fot : Fot) (v : Val) (kw : Kw) :
+    Gen.CastFns.parse_bytes fot (.val v) kw = (parseBlob kw.length v).map Obj.val := by
+  unfold Gen.CastFns.parse_bytes
+  cases hl : kw.length with
+  | none => cases v <;> prim_simp [hl, parseBlob, limitBlob, limitWith]
+  | some k =>
+    by_cases hk : k = 0
+    · subst hk
+      cases v <;> prim_simp [hl, parseBlob, limitBlob, limitWith, Gen.Cast.blobLimitTest]
+    · cases v <;> prim_simp [hl, hk, parseBlob, limitBlob, limitWith, Gen.Cast.blobLimitTest, Gen.Cast.blobStop]
+
+/-- `parse_date` / `parse_timestamp` as written now (`parse_iso`, `None` raises `ValueError`, `.date()` for DATE) are
+`parseTemporal`. -/
+theorem generated_parse_temporal_eq_model (fot : Fot) (v : Val) (kw : Kw) :
+    Gen.CastFns.parse_date fot (.val v) kw = (parseTemporal .date v).map Obj.val ∧
+    Gen.CastFns.parse_timestamp fot (.val v) kw = (parseTemporal .timestamp v).map Obj.val := by
+  constructor
+  · unfold Gen.CastFns.parse_date
+    simp only [parseIso, parseTemporal, Iso.cast]
+    cases Iso.parseIso (isoInput v) <;> prim_simp [pyDateOf]
+  · unfold Gen.CastFns.parse_timestamp
+    simp only [parseIso, parseTemporal, Iso.cast]
+    cases Iso.parseIso (isoInput v) <;> prim_simp []
+
+/-- `parse_decimal` as written now — defaults 38 / 21, numbers through `str()`, bytes decoded, *then* text stripped
+(so decoded bytes are stripped too), the factory called with the declared precision and scale — is `parseDecimal`. -/
+theorem generated_parse_decimal_eq_model (fot : Fot) (v : Val) (kw : Kw) :
+    Gen.CastFns.parse_decimal fot (.val v) kw = (parseDecimal kw.precision kw.scale v).map Obj.val := by
+  unfold Gen.CastFns.parse_decimal
+  cases hp : kw.precision <;> cases hs : kw.scale <;>
+  (cases v with
+   | bytes b => cases hd : Iso.decodeUtf8 b <;>
+      prim_simp [hp, hs, hd, parseDecimal, parseInteger, decimalFactory, Gen.Cast.defaultPrecision, Gen.Cast.defaultScale] <;>
+      (intros; omega)
+   | _ => prim_simp [hp, hs, parseDecimal, parseInteger, decimalFactory, Gen.Cast.defaultPrecision, Gen.Cast.defaultScale] <;>
+      (intros; omega))
+
+/-- **`OrsoTypes.parse` and the dict `ORSO_TO_PYTHON_PARSER` as written now are `Cast.parse`**: `None` returns `None`
+before anything is looked up; any other value is handed, with the options, to the function the dict names for the
+type, and that function is the model's parser of the type (theorems above).  Holds for the full dict and for the dict
+`element_type.parse` dispatches through. -/
+theorem generated_dispatch_eq_model (fot : Fot) (tbl : Fot → List (String × Parser))
+    (htbl : tbl = Gen.CastFns.ORSO_TO_PYTHON_PARSER ∨ tbl = Gen.CastFns.scalarParsers) (t : Ty) (ov : Option Val)
+    (hb : t = .boolean → ∀ v, ov = some v → textual v = true) :
+    Gen.CastFns.OrsoTypes_parse fot (tbl fot) (.ty t) (ofOpt ov) (kwOf t) = (Cast.parse fot t ov).map ofOpt := by
+  unfold Gen.CastFns.OrsoTypes_parse
+  cases ov with
+  | none => simp only [ofOpt, pyIsNone, if_true, Cast.parse, parseVia_none null_guard]; rfl
+  | some v =>
+    simp only [ofOpt, pyIsNone, Cast.parse, parseVia_some null_guard, dispatch_table, map_bind_some]
+    rcases htbl with rfl | rfl <;>
+    cases t <;> simp [tyValue, tableGet, Gen.CastFns.ORSO_TO_PYTHON_PARSER, Gen.CastFns.scalarParsers, List.lookup, Ty.name,
+      bind, Except.bind, generated_parse_integer_eq_model, generated_parse_double_eq_model, generated_parse_varchar_eq_model,
+      generated_parse_bytes_eq_model, generated_parse_temporal_eq_model, generated_parse_decimal_eq_model,
+      kwOf, Ty.length, Ty.precision, Ty.scale]
+    all_goals exact generated_parse_boolean_eq_model fot v _ (hb rfl v rfl)
+
+/-- **`parse_array` as written now is the model's array cast**: a native sequence is iterated as it is, anything else is
+handed to `orjson.loads` first; without an element type the elements are returned as a list, otherwise each goes through
+`element_type.parse` (no options: `kwOf t = {}`) — `parseArray` on native sequences, `Json.parseArrayText` on text and
+bytes wherever that is defined (JSON without objects). -/
+theorem generated_parse_array_eq_model (fot : Fot) (et : Option Ty) (hopt : ∀ t, et = some t → kwOf t = {}) :
+    (∀ xs : List (Option Val), (et = some .boolean → ∀ x ∈ xs, ∀ v, x = some v → textual v = true) →
+      Gen.CastFns.parse_array fot (.seq xs) { elementType := et } = (parseArray fot et xs).map Obj.seq) ∧
+    (∀ v r, Json.parseArrayText fot et v = some r →
+      (et = some .boolean → ∀ xs, Json.loadElements fot v = some (.ok xs) → ∀ x ∈ xs, ∀ v, x = some v → textual v = true) →
+      Gen.CastFns.parse_array fot (.val v) { elementType := et } = r.map Obj.seq) := by
+  have core : ∀ (x : Obj) (r : Except Exc (List (Option Val))), pyIter x = r →
+      (et = some .boolean → ∀ xs, r = .ok xs → ∀ x ∈ xs, ∀ v, x = some v → textual v = true) →
+      (match et with
+       | none => pyList x
+       | some t => pyListComp (fun v => Gen.CastFns.OrsoTypes_parse fot (Gen.CastFns.scalarParsers fot) (.ty t) v {}) x)
+        = (r.bind (parseArray fot et)).map Obj.seq := by
+    intro x r hx hb
+    cases r with
+    | error e => cases et <;> simp [pyList, pyListComp, hx, Except.map, Except.bind]
+    | ok xs =>
+      cases et with
+      | none => simp [pyList, hx, parseArray_none, Except.map, Except.bind]
+      | some t =>
+        have hk := hopt t rfl
+        have : mapE (fun v => Gen.CastFns.OrsoTypes_parse fot (Gen.CastFns.scalarParsers fot) (.ty t) v {}) xs
+            = parseArray fot (some t) xs := by
+          apply mapE_eq_parseArray
+          intro y hy
+          have := generated_dispatch_eq_model fot Gen.CastFns.scalarParsers (Or.inr rfl) t y
+            (fun ht v hv => hb (by rw [ht]) xs rfl y hy v hv)
+          rw [hk] at this
+          exact this
+        simp [pyListComp, hx, this, Except.bind, Except.map]
+  refine ⟨?_, ?_⟩
+  · intro xs hb
+    have := core (.seq xs) (.ok xs) rfl (fun h ys hy => by cases hy; exact hb h)
+    unfold Gen.CastFns.parse_array
+    cases et <;> simpa [pyIsInstance, kwGet, pyIsNone, bind_pure, Except.bind] using this
+  · intro v r hr hb
+    simp only [Json.parseArrayText, Option.map_eq_some_iff] at hr
+    obtain ⟨r0, hl, rfl⟩ := hr
+    unfold Gen.CastFns.parse_array
+    have hi := not_native v
+    rcases orjsonLoads_of_loadElements fot v r0 hl with ⟨e, h1, rfl⟩ | ⟨j, h1, rfl⟩
+    · cases et <;> simp [hi, h1, bind, Except.bind, Except.map]
+    · have := core (.json j) (Json.elementsOf j) rfl (fun h xs hx => hb h xs (by rw [hl, hx]))
+      cases et <;> simpa [hi, h1, kwGet, pyIsNone, bind_pure, bind, Except.bind] using this
+
+end Generated
+
 /-! Non-vacuity (concrete inputs through the whole text path, including rounding and the fallback). -/
 
 example : parseDecimal (some 5) (some 2) (.str "123.45".toList) = .ok (.dec (.fin false 12345 (-2))) := by decide
@@ -590,5 +796,14 @@ example : String.ofList (Json.render Json.Ws.jsonDumps (fun _ => []) (.arr [.int
     = "[-1, null, \"\\\"\\u0001\", []]" := by decide
 example : parseInteger (.str " -12_000 ".toList) = .ok (.int (-12000)) := by decide
 example : parseVarchar (some 3) (.str "héllo".toList) = .ok (.str "hél".toList) := by decide
+
+/-- the generated programs run: text, bytes, options, nulls, an array from JSON text -/
+example : (Gen.CastFns.parse_varchar (fun _ => none) (.val (.str "héllo".toList)) { length := some 3 }).map Prim.toOpt
+    = .ok (some (.str "hél".toList)) := by decide
+example : (Gen.CastFns.parse_boolean (fun _ => none) (.val (.bytes [121, 101, 115])) {}).map Prim.toOpt = .ok (some (.bool true)) := by decide
+example : (Gen.CastFns.OrsoTypes_parse (fun _ => none) (Gen.CastFns.ORSO_TO_PYTHON_PARSER (fun _ => none)) (.ty (.decimal (some 5) (some 2)))
+    (.val (.bytes [32, 49, 46, 53, 32])) (Prim.kwOf (.decimal (some 5) (some 2)))).map Prim.toOpt = .ok (some (.dec (.fin false 150 (-2)))) := by decide
+example : (Gen.CastFns.parse_array (fun _ => none) (.val (.str "[1, null, \"-2\"]".toList)) { elementType := some .integer }).map Prim.seqOf
+    = .ok (some [some (.int 1), none, some (.int (-2))]) := by decide
 
 end C07
